@@ -23,7 +23,12 @@ DEFAULT_PROFILE = {
 
 
 # explicit group names: none (generated), ordinary ones, and ones that look exactly like generated names
-GROUP_CHOICES = ["-", "-", "-", "-", "G", "H", "apply-worker-group-0", "starmap-worker-group-1", "map-worker-group-0"]
+GROUP_CHOICES = ["-", "-", "-", "-", "G", "H", "apply-worker-group-0", "starmap-worker-group-1", "map-worker-group-0", "''"]
+
+
+def enc_name(n):
+    """the empty string (a legal group name) travels as `''` in an op line"""
+    return "''" if n == "" else n
 
 
 def profile(**kw):
@@ -104,6 +109,11 @@ class Run:
 
     def do(self, toks):
         toks, res = self.W.do(toks)
+        if len(toks) >= 4 and toks[0] == "on" and toks[2] == "set_size" and res == "ok" and int(toks[1]) < len(self.W.pools):
+            ctx = self.W.pools[int(toks[1])]
+            if ctx.nreq == 0 and not getattr(ctx, "resized", False):
+                ctx.size = toks[3]          # assigned before the first request: the size the capacity probe goes by
+            ctx.resized = True
         o, ex = self.W.obs(res)
         self.lines.append(" ".join(toks))
         self.obs.append(o)
@@ -150,7 +160,8 @@ class Run:
 
 def gen_mkpool(rng, prof, R):
     size = rng.choice(prof["sizes"])
-    name = rng.choice(["-", "-", "-", "pp", "qq"])
+    # pool names: none, ordinary ones, and ones with characters that formatting code may trip over
+    name = rng.choice(["-", "-", "-", "pp", "qq", "50%", "a{0}b", "%s"])
     if rng.random() < prof["badpool"]:
         size = "-1"
     if rng.random() < prof["simple"]:
@@ -162,6 +173,9 @@ def gen_mkpool(rng, prof, R):
             R.W.pools[-1].unlock_hooks = True
     else:
         R.do(["mkpool", "task", size, name])
+    if R.W.pools and rng.random() < prof.get("early_resize", 0.0):
+        # the size is assigned right after construction, before the pool is asked for anything
+        R.do(["on", str(len(R.W.pools) - 1), "set_size", str(rng.choice([0, 1, 1, 2, 2, 3, 4]))])
 
 
 def gen_op(rng, prof, R):
@@ -202,7 +216,7 @@ def gen_op(rng, prof, R):
         R.do(on + ["cancel"] + [str(rng.randint(-1, 9)) for _ in range(rng.randint(0, 3))])
     elif k == "cancel_group":
         g = rng.choice(ctx.names + ["nope"]) if ctx.names else "nope"
-        R.do(on + ["cancel_group", g])
+        R.do(on + ["cancel_group", enc_name(g)])
     elif k == "cancel_all":
         R.do(on + ["cancel_all"])
     elif k == "lock":
@@ -215,7 +229,7 @@ def gen_op(rng, prof, R):
         R.do(on + ["set_size", str(rng.choice(prof["set_sizes"]) if prof.get("set_sizes") else rng.randint(-1, 4))])
     elif k == "get_ids":
         names = [rng.choice(ctx.names + ["nope"]) if ctx.names else "nope" for _ in range(rng.randint(0, 3))]
-        R.do(on + ["get_ids"] + names)
+        R.do(on + ["get_ids"] + [enc_name(n) for n in names])
     elif k == "flush":
         R.do(on + ["flush", rng.choice("01")])
     elif k == "gac":
@@ -255,7 +269,7 @@ def capacity_probe(R):
         else:
             res = R.do(on + ["apply", n, "-", "g", "0", "n", "n", "0", "1", "-"])
         R.idle()
-        R.do(on + ["get_ids"] + ([res[5:]] if res.startswith("name:") else []))
+        R.do(on + ["get_ids"] + ([enc_name(res[5:])] if res.startswith("name:") else []))
     R.winddown()
 
 
